@@ -73,6 +73,7 @@ pub proof fn lemma_subtokens_distinct(t: TokenInner, i: nat, j: nat)
 //@ spec
         ensures r.tok().sid() == self.next().sid(), r.tok().sver() == self.next().sver(), r.tok().ssub() == 0, r == self.reg(),
 //@ enditem
+//@ if prove_token_room
 //@ item src/sys.rs / impl TokenFactory / fn token props=C20,C01 ret=r
 //@ spec
         requires old(self).next().ssub() < 0xFFFF,
@@ -82,6 +83,20 @@ pub proof fn lemma_subtokens_distinct(t: TokenInner, i: nat, j: nat)
                 final(self).next().ssub() == old(self).next().ssub() + 1,
                 final(self).reg() == old(self).reg(),
 //@ enditem
+//@ else
+// Callers' view (rule D6): partial correctness -- sub-id exhaustion is the documented loud failure (the real
+// body panics, proved unreachable only under `sub_id < 0xFFFF` in unit systok and by the Kani should_panic
+// harness), so "the call returned" implies there was room.
+//@ item src/sys.rs / impl TokenFactory / fn token props=C20,C01 ret=r sigonly
+//@ spec
+        ensures old(self).next().ssub() < 0xFFFF,
+                r.tok() == old(self).next(),
+                final(self).next().sid() == old(self).next().sid(),
+                final(self).next().sver() == old(self).next().sver(),
+                final(self).next().ssub() == old(self).next().ssub() + 1,
+                final(self).reg() == old(self).reg(),
+//@ enditem
+//@ endif
 //@ close
 
 //@ item src/sys.rs / fn cvt_interest props=C02,C20,C16 ret=r
